@@ -246,6 +246,9 @@ def verify_unit(vc_path, tier='quick', with_vacuity=True, rlimit=None, keep=True
 
     if with_vacuity:
         vres, vdiags, _, _ = vfut.result()
+        vhard = [d for d in vdiags if d.get('level') == 'error' and d.get('code')]
+        if vhard or vres.get('verification-results', {}).get('encountered-vir-error'):
+            raise InfraError('the vacuity variant of unit %s does not compile: %s' % (u.name, (vhard[0].get('rendered') if vhard else '')[:1500]))
         vlines = vtext.split('\n')
         failed_fns = set()
         for d in vdiags:
